@@ -34,7 +34,7 @@ def run(ctx):
     ctx.rule = ('exhaustive over all Pauli strings/pairs for n<=%d, random to n=%d; ipauli whole sequences for all '
                 '(n,lo,hi) n<=%d; pack/unpack every length 0..130 and random longer; malformed stream counted '
                 'separately. nontrivial = distinct input containing Y and at least two distinct letters'
-                % (ctx.pick(3, 4), ctx.pick(120, 300), ctx.pick(4, 6)))
+                % (ctx.pick(3, 4), ctx.pick(120, 300), ctx.pick(5, 6)))
     ctx.props_obligations()
 
     req, exp = [], []  # model requests and implementation answers (canonical)
@@ -158,7 +158,7 @@ def run(ctx):
                   {'A': rowsstr(A), 'B': rowsstr(B)} if n == 3 else None)
 
     # ---- 4. ipauli / ibsf ----------------------------------------------------------------
-    imax = ctx.pick(4, 6)
+    imax = ctx.pick(5, 6)
     for n in range(0, imax + 1):
         for lo in range(0, n + 1):
             for hi in range(lo, n + 1):
@@ -192,7 +192,7 @@ def run(ctx):
         ctx.cmp('ipauli(default,prefix)', n, pre[:min(len(pre), len(full))], full[:min(len(pre), len(full))])
         ctx.count(('ipauli-prefix', n), True, 'ipauli-prefix')
         import math
-        for w in range(0, min(n, 3) + 1):
+        for w in range(0, (n if n <= 8 else 3) + 1):
             cnt = sum(1 for _ in pt.ipauli(n, w, w))
             if cnt != math.comb(n, w) * 3 ** w:
                 ctx.violation('ipauli-count', 'wrong number of weight-w Paulis', {'n': n, 'w': w, 'count': cnt})
